@@ -329,15 +329,15 @@ def tso_search(ctx, label, exe, cases, monitor, limit=3, known=None, seed=7):
 
 
 def strip_aux(line):
-    """drop the monitor-only observations (kind 929) from an implementation trace line"""
-    if line is None or " 929 " not in line:
+    """drop the monitor-only observations (kind 979) from an implementation trace line"""
+    if line is None or " 979 " not in line:
         return line
     v = line.split()
     if len(v) % 4:
         return line
     out = []
     for i in range(0, len(v), 4):
-        if v[i + 2] != "929":
+        if v[i + 2] != "979":
             out += v[i:i + 4]
     return " ".join(out)
 
